@@ -288,6 +288,20 @@ func (x *leakExec) problem(format string, a ...interface{}) {
 	x.mu.Unlock()
 }
 
+// leakSpinUntil waits for a condition another goroutine is about to establish (microseconds): yield, do not sleep.
+func leakSpinUntil(timeout time.Duration, cond func() bool) bool {
+	t0 := time.Now()
+	for i := 0; ; i++ {
+		if cond() {
+			return true
+		}
+		if i&63 == 63 && time.Since(t0) > timeout {
+			return false
+		}
+		runtime.Gosched()
+	}
+}
+
 func leakSide(side int) string {
 	if side == 0 {
 		return "client"
@@ -930,7 +944,7 @@ func (w *leakWorker) lateDataRace() {
 	w.opFlush(sl, a, 0)
 	held := false
 	if w.hist[len(w.hist)-1].Res == "ok" {
-		held = waitUntil(5*time.Second, func() bool { return atomic.LoadInt32(&x.lateHolding) != 0 })
+		held = leakSpinUntil(5*time.Second, func() bool { return atomic.LoadInt32(&x.lateHolding) != 0 })
 	}
 	w.opClose(sl, b)
 	atomic.StoreInt32(&x.lateArmed, 0)
@@ -1022,7 +1036,7 @@ func (w *leakWorker) simultaneousCloseBurst() {
 				a = 1 - first
 			}
 			b := 1 - a
-			if w.rng.Intn(2) == 0 {
+			if w.rng.Intn(4) == 0 {
 				// deterministic variant: b's closer is parked between its state load (open) and its CAS until a's close
 				// notification has half-closed b
 				x.parkTarget.Store(sl.ends[b])
@@ -1039,7 +1053,7 @@ func (w *leakWorker) simultaneousCloseBurst() {
 					}()
 					st.Close()
 				}(sl.ends[b])
-				waitUntil(5*time.Second, func() bool { return atomic.LoadInt32(&x.parkParked) != 0 })
+				leakSpinUntil(5*time.Second, func() bool { return atomic.LoadInt32(&x.parkParked) != 0 })
 				sl.ends[a].Close()
 				<-hd
 				atomic.StoreInt32(&x.parkArmed, 0)
@@ -1822,7 +1836,7 @@ func checkLeak(c *checkCtx) {
 		"is legitimately held until that end is closed")
 	c.assume("client and server live in one process and share one bufferManager object and one event loop; the child-process peer variant is not part of this module")
 	c.assume("a history in which a session died or an allocator ABA suspect (known finding F1) coincided with a discrepancy is discarded as inconclusive")
-	n := c.pick(300, 6000)
+	n := c.pick(220, 4400)
 	var replay *leakCase
 	if c.tier == "replay" {
 		// ./run.sh C09 replay <file>: the recorded case is run 20 times (single-mode histories reproduce up to event-loop timing)
